@@ -273,6 +273,14 @@ func (t *tr) expr(e ast.Expr) (string, ty) {
 		return t.call(x, tv)
 	case *ast.IndexExpr:
 		if t.siteMod {
+			if _, known := knownTables[t.exprString(x.X)]; !known && opaqueBoolCalls {
+				// an element of a slice that is not a translated table (s.table[i], buffer[offset]): an opaque value named
+				// after the whole printed expression
+				if b, ok := tv.Type.Underlying().(*types.Basic); ok && b.Info()&(types.IsInteger|types.IsBoolean) != 0 {
+					tt := goTy(tv.Type, t.pos(e))
+					return t.useFree(sanitizeFull(types.ExprString(x)), tt), tt
+				}
+			}
 			return t.siteIndex(x)
 		}
 	}
@@ -313,6 +321,14 @@ func (t *tr) binary(x *ast.BinaryExpr) (string, ty) {
 			op = "||"
 		}
 		return fmt.Sprintf("(%s %s %s)", a, op, b), ty{0, false}
+	}
+	if opaqueBoolCalls && t.siteMod && (x.Op == token.EQL || x.Op == token.NEQ) {
+		if xt, ok := t.p.info.Types[x.X]; ok {
+			if _, basic := xt.Type.Underlying().(*types.Basic); !basic || xt.IsNil() {
+				// pointer / interface / nil comparison: an opaque boolean named after the printed comparison
+				return t.useFree(sanitizeFull(types.ExprString(x)), ty{0, false}), ty{0, false}
+			}
+		}
 	}
 	a, ta := t.expr(x.X)
 	b, tb := t.expr(x.Y)
@@ -474,6 +490,12 @@ func (t *tr) call(x *ast.CallExpr, tv types.TypeAndValue) (string, ty) {
 	if t.siteMod && opaqueBoolCalls && len(x.Args) > 0 {
 		if b, ok := tv.Type.Underlying().(*types.Basic); ok && b.Info()&types.IsBoolean != 0 {
 			return t.useFree(sanitizeFull(types.ExprString(x)), ty{0, false}), ty{0, false}
+		}
+		if b, ok := tv.Type.Underlying().(*types.Basic); ok && b.Info()&types.IsInteger != 0 {
+			if _, isLocalFn := x.Fun.(*ast.Ident); !isLocalFn || findFunc(t.p, name) == nil {
+				tt := goTy(tv.Type, t.pos(x))
+				return t.useFree(sanitizeFull(types.ExprString(x)), tt), tt
+			}
 		}
 	}
 	// method call / unknown call with basic result: free variable in site mode
@@ -695,6 +717,14 @@ func (t *tr) block(stmts []ast.Stmt, k string, ind string) string {
 	}
 	fail("%s: unsupported statement %T", t.pos(s), s)
 	return ""
+}
+
+func copyCalls(m map[string]string) map[string]string {
+	o := map[string]string{}
+	for k, v := range m {
+		o[k] = v
+	}
+	return o
 }
 
 func copyMap(m map[string]bool) map[string]bool {
@@ -1141,6 +1171,59 @@ func main() {
 		{"policy.determineAdjustment", "determineAdjustment"}, {"policy.demoteFromMainProtected", "demote"},
 		{"policy.increaseWindow", "increaseWindow"}, {"policy.decreaseWindow", "decreaseWindow"}, {"reorder", "reorder"},
 	}, map[string]string{}, "")
+
+	// ---- every other file with modelled logic: all pure computations of all functions (pinned by Pin.*)
+	lpS := loadPkg("internal/lossy")
+	xsS := loadPkg("internal/xsync")
+	dqS := loadPkg("internal/deque")
+	stS := loadPkg("stats")
+	skCalls := map[string]string{"spread": "OtterVerif.Gen.SketchMix.spread", "rehash": "OtterVerif.Gen.SketchMix.rehash"}
+	for k, v := range xmCalls {
+		skCalls[k] = v
+	}
+	autoModule(out, "SketchSites", ot, allFuncs(ot, "sketch.go"), skCalls, "", "OtterVerif.Gen.Xmath", "OtterVerif.Gen.SketchMix")
+	// cache_impl.go in five groups, so that a changed computation is charged to the properties it can affect
+	cacheGroups := [][]string{
+		{"CacheRead", "deadlineAfter", "getCause", "cache.getNode", "cache.getNodeQuietly", "cache.has", "cache.calcExpiresAtAfterRead", "cache.setExpiresAfterRead",
+			"cache.SetExpiresAfter", "cache.SetRefreshableAfter", "cache.calcExpiresAtAfterWrite", "cache.calcRefreshableAt", "cache.isStale", "cache.nodeToEntry",
+			"cache.newNode", "cache.GetIfPresent", "cache.GetEntry", "cache.GetEntryQuietly", "cache.nodes", "cache.entries", "cache.All", "cache.Keys", "cache.Values",
+			"cache.evictionOrder", "cache.Hottest", "cache.Coldest"},
+		{"CacheWrite", "cache.Set", "cache.SetIfAbsent", "cache.set", "cache.atomicSet", "cache.atomicDelete", "cache.Compute", "cache.ComputeIfAbsent",
+			"cache.ComputeIfPresent", "cache.doCompute", "cache.afterWrite", "cache.Invalidate", "cache.deleteNodeFromMap", "cache.deleteNode", "cache.afterDelete",
+			"cache.notifyDeletion", "cache.notifyAtomicDeletion", "cache.evictNode", "cache.evictNodeBySize", "cache.InvalidateAll", "cache.runTask", "cache.getTask",
+			"cache.putTask", "cache.makeRetired", "cache.makeDead", "cache.onAccess", "cache.expireNodes", "cache.evictNodes", "cache.climb"},
+		{"CacheLoad", "cache.refreshKey", "cache.Get", "cache.afterDeleteCall", "cache.bulkRefreshKeys", "cache.BulkGet", "cache.wrapLoad", "cache.Refresh", "cache.BulkRefresh"},
+		{"CacheMaint", "cache.afterRead", "cache.CleanUp", "cache.shouldDrainBuffers", "cache.skipReadBuffer", "cache.afterWriteTask", "cache.scheduleAfterWrite",
+			"cache.scheduleDrainBuffers", "cache.drainBuffers", "cache.performCleanUp", "cache.rescheduleCleanUpIfIncomplete", "cache.maintenance", "cache.drainReadBuffer",
+			"cache.drainWriteBuffer", "cache.periodicCleanUp", "cache.SetMaximum", "cache.GetMaximum", "cache.WeightedSize", "cache.StopAllGoroutines"},
+	}
+	grouped := map[string]bool{}
+	for _, g := range cacheGroups {
+		var fns [][2]string
+		for _, fn := range g[1:] {
+			if findFunc(ot, fn) == nil {
+				fail("cache_impl.go: function %s (group %s) not found", fn, g[0])
+			}
+			grouped[fn] = true
+			fns = append(fns, [2]string{fn, sanitize(strings.Replace(fn, ".", "_", 1))})
+		}
+		autoModule(out, g[0], ot, fns, copyCalls(xmCalls), "", "OtterVerif.Gen.Xmath")
+	}
+	var misc [][2]string
+	for _, f := range allFuncs(ot, "cache_impl.go") {
+		if !grouped[f[0]] {
+			misc = append(misc, f)
+		}
+	}
+	autoModule(out, "CacheMisc", ot, misc, copyCalls(xmCalls), "", "OtterVerif.Gen.Xmath")
+	autoModule(out, "FlightSites", ot, allFuncs(ot, "singleflight.go"), map[string]string{}, "")
+	autoModule(out, "PersistSites", ot, allFuncs(ot, "persistence.go"), map[string]string{}, "")
+	autoModule(out, "LossySites", lpS, allFuncs(lpS, "ring.go", "striped.go"), copyCalls(xmCalls), "", "OtterVerif.Gen.Xmath")
+	autoModule(out, "MpscSites", qp, allFuncs(qp, "mpsc.go"), copyCalls(xmCalls), "", "OtterVerif.Gen.Xmath")
+	autoModule(out, "MapSites", hp, allFuncs(hp, "map.go"), copyCalls(xmCalls), "", "OtterVerif.Gen.Xmath")
+	autoModule(out, "AdderSites", xsS, allFuncs(xsS, "adder.go"), copyCalls(xmCalls), "", "OtterVerif.Gen.Xmath")
+	autoModule(out, "DequeSites", dqS, allFuncs(dqS, "linked.go"), map[string]string{}, "")
+	autoModule(out, "StatsSites", stS, allFuncs(stS, "counter.go", "stats.go"), map[string]string{}, "")
 
 	// ---- protocol skeletons
 	s = header("Skeleton")
